@@ -97,8 +97,8 @@ def plan(ctx):
         "obligations": obs,
         "precheck": both_prechecks,
         "explanation": "z3 decides, for ALL token strings up to the stated length over the stated alphabet, queries over an SMT chart of the run of "
-                       "the real LALR tables (regenerated from the snapshot by SqParser()): acceptance == derivability in the productions with the "
-                       "operator-table filters of the property, and no parent/child grouping against the table. Counterexamples are rendered to "
+                       "the real LALR tables (regenerated from the snapshot by SqParser()): acceptance == derivability in the published grammar (independent copy: spec/grammar_ref.json) with the "
+                       "operator-table filters of the property, no parent/child grouping against the table, and (LXC) the master regex tokenises every text like the published token definitions. Counterexamples are rendered to "
                        "text and replayed through the real lexer and parser.",
         "functions": ["LALR tables built by smartquery.ply.yacc from smartquery/rules.py + lexer.precedence", "driver semantics of ply.yacc.parseopt_notrack (modelled, validated on concrete strings every run)"],
         "files": ["smartquery/rules.py", "smartquery/lexer.py", "smartquery/ply/yacc.py", "smartquery/sq_parser.py"],
